@@ -266,6 +266,10 @@ def h_place_dp17(P, S):
     nchunks = len(adv.choices)
     if nchunks == 0:
         return S.fail("buckets-not-drawn-from-the-random-source")
+    # DP17's array A_i has 2N + 2^(i+1) cells in buckets of 2^(i+1): at least two buckets per level, so the first
+    # chunk placed anywhere must have had a real choice - otherwise every setup puts it in the same bucket
+    if len(adv.choices[0][0]) < 2:
+        return S.fail("placement-has-no-choice")
     if adv.shuffles == 0:
         return S.fail("buckets-not-shuffled")
     for lvl in list(edb.A_dict.keys()):
